@@ -160,6 +160,9 @@ var faultKinds = []string{
 	"pointGap",   // Begin, then End for another batch name/group and a point in between (legal but odd: must not crash)
 }
 
+// junkName: the name of the batches a misbehaving peer makes up (UDFProtoTrace knows it).
+const junkName = "c19-junk"
+
 func (h *echoHandler) send(r *agent.Response) {
 	h.count()
 	h.a.Responses <- r
@@ -174,10 +177,10 @@ func frame(payload []byte) []byte {
 func (h *echoHandler) misbehave(f *faultSpec, echo *agent.Response) error {
 	switch f.Kind {
 	case "endNoBegin":
-		h.send(&agent.Response{Message: &agent.Response_End{End: &agent.EndBatch{Name: "x", Tmax: 1}}})
+		h.send(&agent.Response{Message: &agent.Response_End{End: &agent.EndBatch{Name: junkName, Tmax: 1}}})
 	case "beginNeg":
-		h.send(&agent.Response{Message: &agent.Response_Begin{Begin: &agent.BeginBatch{Name: "x", Size: -1}}})
-		h.send(&agent.Response{Message: &agent.Response_End{End: &agent.EndBatch{Name: "x", Tmax: 1}}})
+		h.send(&agent.Response{Message: &agent.Response_Begin{Begin: &agent.BeginBatch{Name: junkName, Size: -1}}})
+		h.send(&agent.Response{Message: &agent.Response_End{End: &agent.EndBatch{Name: junkName, Tmax: 1}}})
 	case "emptyFrame":
 		h.raw([]byte{0})
 	case "hugeLen":
@@ -218,14 +221,14 @@ func (h *echoHandler) misbehave(f *faultSpec, echo *agent.Response) error {
 		h.closeFn()
 		return nil
 	case "pointGap":
-		h.send(&agent.Response{Message: &agent.Response_Begin{Begin: &agent.BeginBatch{Name: "x", Size: 1}}})
-		h.send(&agent.Response{Message: &agent.Response_End{End: &agent.EndBatch{Name: "y", Group: "zz", Tmax: 1}}})
+		h.send(&agent.Response{Message: &agent.Response_Begin{Begin: &agent.BeginBatch{Name: "other", Size: 1}}})
+		h.send(&agent.Response{Message: &agent.Response_End{End: &agent.EndBatch{Name: junkName, Group: "zz", Tmax: 1}}})
 	default:
 		panic("unknown fault " + f.Kind)
 	}
 	// the unsolicited ones keep echoing: the peer is odd, not dead
 	switch f.Kind {
-	case "unsolInfo", "unsolInit", "unsolSnapshot", "unsolRestore", "unsolKeepalive", "pointGap":
+	case "unsolInfo", "unsolInit", "unsolSnapshot", "unsolRestore", "unsolKeepalive", "pointGap", "beginNeg":
 		h.send(echo)
 	}
 	return nil
